@@ -777,8 +777,15 @@ class DBUDSServer(UDSServer):
             response_pdu: bytes | None = result[1]
 
             if response_pdu is not None:
-                response = service.UDSResponse.parse_dynamic(unhexlify(response_pdu))
-                return response
+                pdu = unhexlify(response_pdu)
+
+                try:
+                    return service.UDSResponse.parse_dynamic(pdu)
+                except Exception:
+                    # The ECU's reply was recorded although it is malformed; replay it as is
+                    if pdu[0] == UDSIsoServices.NegativeResponse:
+                        return service.RawNegativeResponse(pdu)
+                    return service.RawPositiveResponse(pdu)
 
             logger.info("Reset ECU due to missing response")
             self.state.reset()
